@@ -254,6 +254,7 @@ func runC04(c *core.Check) {
 	if n == 0 {
 		c.Note("C04.case-in-key-only: the printer has no case-changing call")
 	}
+	checkCaseUnquotedOnly(c, "C04.case-unquoted-only")
 	// block text is written verbatim, line by line
 	c.Rule("C04.verbatim-lines", "block strings and block comments are written line by line without altering the lines")
 	for _, name := range []string{"blockString", "blockComment"} {
@@ -790,6 +791,7 @@ func runC05(c *core.Check) {
 	c.Rule("C05.delimiters", "every rune the unquoted-string reader stops or branches on is in the generator's special-character set of that context")
 	c.Rule("C05.whole-runes", "hasSurroundingWhitespace tests decoded runes at both ends")
 	c.Rule("C05.key-case", "a key segment the printer would re-case is quoted by the generator")
+	checkCaseUnquotedOnly(c, "C05.case-unquoted-only")
 	kws := parserValueKeywords(c)
 	if len(kws) < 5 {
 		c.Fail("C05.value-keywords", "parser-keywords", token.NoPos, fmt.Sprintf("only %d keyword comparisons found in parseValue", len(kws)))
@@ -1033,4 +1035,69 @@ func globalVar(p *core.Prog, rel, name string) *types.Var {
 	}
 	v, _ := pk.Types.Scope().Lookup(name).(*types.Var)
 	return v
+}
+
+// checkCaseUnquotedOnly: a printer function that tells quoted from unquoted text by a bool parameter (the parameter
+// selects the double-quoted escaper) changes letter case only on that parameter's unquoted side: a quoted key segment
+// is never a keyword, so "Shape" must come back as "Shape". The generator relies on it (C05.key-case quotes such names).
+func checkCaseUnquotedOnly(c *core.Check, rule string) {
+	c.Rule(rule, "the printer changes letter case only of unquoted text: a quoted segment spelled like a keyword keeps its case")
+	pk := c.P.Pkg("d2format")
+	if pk == nil {
+		return
+	}
+	n := 0
+	for _, fi := range c.P.Funcs(pk) {
+		info := fi.Pkg.TypesInfo
+		sig := fi.Obj.Type().(*types.Signature)
+		var fl *core.Flow
+		flow := func() *core.Flow {
+			if fl == nil {
+				fl = core.NewFlow(fi.Pkg, fi.Decl.Body)
+			}
+			return fl
+		}
+		// the quoted flag: a bool parameter on whose true side the double-quoted escaper is called
+		var quoted types.Object
+		for i := 0; i < sig.Params().Len(); i++ {
+			p := sig.Params().At(i)
+			if b, ok := p.Type().Underlying().(*types.Basic); !ok || b.Kind() != types.Bool {
+				continue
+			}
+			for _, call := range core.Calls(fi.Decl.Body, false) {
+				f := core.CalleeOf(info, call)
+				if f == nil || !strings.Contains(strings.ToLower(f.Name()), "quoted") {
+					continue
+				}
+				for _, g := range flow().GuardsOfNode(call) {
+					for _, a := range g.Atoms() {
+						if a.True && core.ObjOf(info, a.Cond) == p {
+							quoted = p
+						}
+					}
+				}
+			}
+		}
+		if quoted == nil {
+			continue
+		}
+		for _, call := range core.Calls(fi.Decl.Body, false) {
+			if !core.IsCallTo(info, call, "strings.ToLower", "strings.ToUpper", "strings.Title", "strings.ToTitle") || isMapIndexKey(fi, call) {
+				continue
+			}
+			n++
+			ok := false
+			for _, g := range flow().GuardsOfNode(call) {
+				for _, a := range g.Atoms() {
+					if !a.True && core.ObjOf(info, a.Cond) == quoted {
+						ok = true
+					}
+				}
+			}
+			c.Decide(ok, rule, "case-unquoted:"+fname(fi)+":"+exprStr(call), call.Pos(), "only when "+quoted.Name()+" is false", "the printer re-cases text also when "+quoted.Name()+" is true: a quoted key segment such as \"Shape\" is printed as \"shape\" and parses back as another name")
+		}
+	}
+	if n == 0 {
+		c.Fail("floor", "floor:"+rule, token.NoPos, "no case-changing call found in a printer function with a quoted flag (confirmed by hand: interpolationBoxes)")
+	}
 }
